@@ -43,6 +43,10 @@ claimed = {
    text="Frame contract 'assigns nothing' proved for every Evaluate/BoundingBox method of every type implementing SDF2/SDF3 (found mechanically from go/types), transitively through all module callees and function-valued fields, with a lock-discipline alternative (writes and all accesses to the written fields only under the receiver's mutex). Race freedom then follows from the Go memory model (reads of memory nobody writes do not race); interleavings themselves are not explored.",
    design_ref="8.10",
    technique="contract-based frame (assigns) and lock-discipline obligations decided by an SSA may-write analysis over the real code"),
+ "C18": dict(
+   text="Proved: every one of the database's entries, read from the map the real package initialiser builds (executed symbolically), agrees exactly with an independent parse of its designation (metric MdxP -> d/2 and P; unified -> diameter/2 and 1/TPI with the gauge-number and UNC/UNF standard tables; NPT -> OD table, 1/TPI and taper atan(1/32)), names match keys, no designation is added twice; ToMillimetre scales the three lengths by 25.4, keeps angle and name, returns metric input unchanged and always yields a metric result (hence idempotent); SawTooth returns a value in [-T/2, T/2) differing from x by an integer multiple of T and is T-periodic; Screw3D stores lead = -pitch*starts (handedness pinned) and the untapered screw evaluates the thread profile at (SawTooth(z + lead*atan2(y,x)/tau, pitch), rho) intersected with the length slab, so its thread term is pitch-periodic in z. Helical invariance beyond that and 'the generated nut fits the bolt' are not_decided.",
+   design_ref="8.18",
+   technique="contract-based deductive verification: exhaustive exact check of the initialiser-built table against an independent designation parser + SMT-discharged contracts and lemmas (mixed integer/real arithmetic with floor)"),
  "C20": dict(
    text="Deductive proof that TriangleIByIndex.Less is the lexicographic order (hence a strict weak order, total on distinct triples, which sort.Sort and Equals need), that TriangleI.Canonical returns the rotation with the minimum first, and that rotations canonicalise identically; the global Bowyer-Watson correctness sentence is not claimed (not_decided).",
    design_ref="8.20",
